@@ -419,16 +419,41 @@ func c19Programs(r *core.Rng, n int) []string {
 				"SYNTAX " + b() + ";", "SHOW FIELDS FROM t;", "SHOW " + []string{"TABLES", "VIEWS", "CURSORS", "FUNCTIONS", "STATEMENTS", "FLAGS", "ENV", "RUNINFO", "NOTHING"}[r.Intn(9)] + ";",
 				"DECLARE v19 VIEW (a, b) AS SELECT " + b() + ", " + b() + "; SELECT * FROM v19; DISPOSE VIEW v19;", "CREATE TABLE `n19.csv` (a, a2) AS SELECT " + b() + ", " + b() + "; ROLLBACK;",
 				"SELECT " + b() + " INTO @nosuch FROM t;", "VAR @i19; SELECT id INTO @i19 FROM t WHERE id = " + b() + "; DISPOSE @i19;", "SELECT * FROM t WHERE id = " + b() + " FOR UPDATE; ROLLBACK;",
+				// a name repeated where a list of distinct names is expected
+				[]string{"REPLACE INTO t (id, k) USING (id, id, id) VALUES (1, 'z'); ROLLBACK;", "REPLACE INTO t (id, k) USING (id, id) SELECT id, k FROM d; ROLLBACK;", "REPLACE INTO t (id) USING (id, k) VALUES (1); ROLLBACK;", "REPLACE INTO t (id, id, k) USING (id) VALUES (1, 2, 'z'); ROLLBACK;",
+					"INSERT INTO t (id, id) VALUES (1, 2); ROLLBACK;", "INSERT INTO t (id, k, v, id) SELECT id, k, v, id FROM d; ROLLBACK;", "UPDATE t SET v = 1, v = 2; ROLLBACK;", "ALTER TABLE t DROP (v, v); ROLLBACK;", "ALTER TABLE t ADD (n1, n1); ROLLBACK;",
+					"ALTER TABLE t ADD (n1, n2) AFTER nosuch; ROLLBACK;", "ALTER TABLE t RENAME v TO v; ROLLBACK;", "ALTER TABLE t RENAME v TO k; ROLLBACK;", "SELECT * FROM t ORDER BY v, v, 1, 1;", "SELECT k, k, COUNT(*) FROM t GROUP BY k, k;",
+					"SELECT SUM(id) OVER (PARTITION BY k, k ORDER BY v, v) FROM t;", "SELECT * FROM t x JOIN d y USING (id, id);", "SELECT DISTINCT k, k FROM t;", "DECLARE v19 VIEW (a, a) AS SELECT 1, 2;", "DECLARE f19 FUNCTION (@a, @a) AS BEGIN RETURN @a; END;",
+					"DECLARE a19 AGGREGATE (c, c) AS BEGIN RETURN 1; END;", "VAR @d19, @d19;", "WITH w (a, a) AS (SELECT 1, 2) SELECT * FROM w;", "WITH w AS (SELECT 1), w AS (SELECT 2) SELECT * FROM w;", "SELECT 1 AS a, 2 AS a FROM t ORDER BY a;",
+					"SELECT * FROM t x JOIN t x ON 1 = 1;", "DELETE x, x FROM t x; ROLLBACK;", "UPDATE t x, t x SET x.v = 1 FROM t x; ROLLBACK;"}[r.Intn(27)],
 				"SET @%NOSUCH19 TO " + b() + "; UNSET @%NOSUCH19;", "SELECT @%HOME, @#VERSION, @#NOSUCH;", "CHDIR " + b() + ";", "PWD;", "RELOAD CONFIG;",
 			}
 			out = append(out, cands[r.Intn(len(cands))])
 		case 11, 12:
 			// relational operators over degenerate operands: an empty table, tables without a common key, one row, and
 			// tables large enough to be split over workers (so that single workers see no row / no match)
-			tabs := []string{"t", "e", "d", "one", "big", "big2", "(SELECT * FROM big WHERE id < 0)", "(SELECT * FROM big WHERE id > 390)"}
+			tabs := []string{"t", "e", "d", "one", "big", "big2", "(SELECT * FROM big WHERE id < 0)", "(SELECT * FROM big WHERE id > 390)",
+				// tables without columns: one record, two records, none; and a one-column table
+				"JSON_TABLE('', '[{}]')", "JSON_TABLE('', '[{},{}]')", "JSON_TABLE('', '[]')", "z", "JSON_TABLE('', '[{\"id\":1}]')"}
 			A, B := tabs[r.Intn(len(tabs))], tabs[r.Intn(len(tabs))]
 			jk := []string{"INNER", "LEFT", "RIGHT", "FULL", "LEFT OUTER", "FULL OUTER"}[r.Intn(6)]
-			switch r.Intn(12) {
+			switch r.Intn(14) {
+			case 12, 13:
+				// a whole row wherever one value, or as many values as names, are expected
+				out = append(out, []string{
+					fmt.Sprintf("VAR @a19; SELECT * INTO @a19 FROM %s x; DISPOSE @a19;", A),
+					fmt.Sprintf("VAR @a19, @b19, @c19; SELECT * INTO @a19, @b19, @c19 FROM %s x LIMIT 1; DISPOSE @a19; DISPOSE @b19; DISPOSE @c19;", A),
+					fmt.Sprintf("DECLARE c19 CURSOR FOR SELECT * FROM %s x; OPEN c19; VAR @x19; FETCH c19 INTO @x19; WHILE @x19 IN c19 DO PRINT @x19; END WHILE; CLOSE c19; DISPOSE CURSOR c19; DISPOSE @x19;", A),
+					fmt.Sprintf("DECLARE c19 CURSOR FOR SELECT * FROM %s x; OPEN c19; VAR @x19, @y19, @z19; FETCH c19 INTO @x19, @y19, @z19; DISPOSE CURSOR c19; DISPOSE @x19; DISPOSE @y19; DISPOSE @z19;", A),
+					fmt.Sprintf("SELECT (SELECT * FROM %s x LIMIT 1); SELECT 1 WHERE 1 = (SELECT * FROM %s x LIMIT 1); SELECT 1 WHERE (1, 2, 3) = (SELECT * FROM %s x LIMIT 1);", A, A, A),
+					fmt.Sprintf("SELECT 1 WHERE 1 IN (SELECT * FROM %s x); SELECT 1 WHERE (1, 2) IN (SELECT * FROM %s x); SELECT 1 WHERE 1 > ANY (SELECT * FROM %s x); SELECT 1 WHERE EXISTS (SELECT * FROM %s x);", A, A, A, A),
+					fmt.Sprintf("INSERT INTO t SELECT * FROM %s x; ROLLBACK; INSERT INTO one SELECT * FROM %s x; ROLLBACK; REPLACE INTO one (id) USING (id) SELECT * FROM %s x; ROLLBACK;", A, A, A),
+					fmt.Sprintf("SELECT * FROM %s x UNION SELECT * FROM %s y; SELECT * FROM %s x EXCEPT SELECT * FROM %s y; SELECT DISTINCT * FROM %s x; SELECT * FROM %s x ORDER BY 1;", A, B, A, B, A, A),
+					fmt.Sprintf("CREATE TABLE `n19.csv` AS SELECT * FROM %s x; ROLLBACK; DECLARE v19 VIEW AS SELECT * FROM %s x; SELECT * FROM v19; DISPOSE VIEW v19; DECLARE v19 VIEW (a) AS SELECT * FROM %s x; DISPOSE VIEW v19;", A, A, A),
+					fmt.Sprintf("SELECT COUNT(*), COUNT(x.*), LISTAGG(1) FROM %s x; SELECT ROW_NUMBER() OVER () FROM %s x; SELECT x.*, y.* FROM %s x CROSS JOIN %s y;", A, A, A, B),
+					fmt.Sprintf("DECLARE f19 FUNCTION (@a) AS BEGIN RETURN (SELECT * FROM %s x LIMIT 1); END; SELECT f19(1); DISPOSE FUNCTION f19; VAR @v19 := (SELECT * FROM %s x LIMIT 1); DISPOSE @v19;", A, A),
+					fmt.Sprintf("PREPARE p19 FROM 'SELECT * INTO @q19 FROM %s x'; VAR @q19; EXECUTE p19; DISPOSE PREPARE p19; DISPOSE @q19;", strings.ReplaceAll(A, "'", "''")),
+				}[r.Intn(12)])
 			case 0:
 				out = append(out, fmt.Sprintf("SELECT COUNT(*) FROM %s x %s JOIN %s y ON x.k = y.k;", A, jk, B))
 			case 1:
@@ -482,7 +507,7 @@ func c19ProgramFuzz(w *core.Worker, i int) {
 		fmt.Fprintf(&big, "%d,%s,%d\n", j, []string{"a", "a", "b", "c"}[(j-1)/100], j%7)
 		fmt.Fprintf(&big2, "%d,%s,%d\n", j+1000, []string{"x", "y", "a", "y"}[(j-1)/100], j%5)
 	}
-	core.WriteFiles(w.Work, map[string]string{"t.csv": "id,k,v\n1,a,3\n2,a,\n3,b,-1\n4,b,2.5\n5,,x\n", "e.csv": "id,k,v\n", "d.csv": "id,k,v\n11,p,1\n12,q,2\n", "one.csv": "id,k,v\n1,a,1\n", "j.json": "[{\"id\":1,\"k\":\"a\"},{\"id\":2,\"k\":\"b\"}]\n",
+	core.WriteFiles(w.Work, map[string]string{"t.csv": "id,k,v\n1,a,3\n2,a,\n3,b,-1\n4,b,2.5\n5,,x\n", "e.csv": "id,k,v\n", "d.csv": "id,k,v\n11,p,1\n12,q,2\n", "one.csv": "id,k,v\n1,a,1\n", "j.json": "[{\"id\":1,\"k\":\"a\"},{\"id\":2,\"k\":\"b\"}]\n", "z.json": "[{}]\n",
 		"big.csv": big.String(), "big2.csv": big2.String()})
 	s, err := core.NewSess(core.SessOpts{Dir: w.Work, Quiet: true, CPU: 4})
 	if err != nil {
